@@ -6,6 +6,20 @@ import os
 HERE = os.path.dirname(os.path.dirname(os.path.abspath(__file__)))
 
 CLAIMED = {
+    "C16": dict(
+        category="translation_validation",
+        text="Every shape, transform and CSG combinator of fidget-shapes is built through its public struct and Tree::from with fixed dyadic "
+             "parameter sets (rotations: 0/+-90/180/45/30/60/120 degrees about the named and four oblique axes), alone, in all ordered pairs over "
+             "opaque argument trees, and primitives under transforms; the tree is imported by the real Context::import, read back, and z3 decides "
+             "over the reals, for ALL points, that it has the documented geometry: primitives negative exactly inside their solid, T(s)(p) = s(T^-1 p) "
+             "for every transform, CSG inside exactly per union/intersection/difference/complement, named axes and planes as named.",
+        design="DESIGN.md §2 C16",
+        note="Trusted: z3 (NRA); the closed-form specification written from the documentation (lib/shapes_tv.py Spec); real arithmetic as the meaning "
+             "of the arithmetic opcodes (sqrt, mod by axioms). Outside: other parameter values, f32 rounding (rotations and normalised axes are compared "
+             "on a linear target with a stated tolerance), deeper compositions, Blend beyond containment, ReflectXY offsets, facet metadata, rhai bindings.",
+        technique="SMT translation validation (z3, QF_UFNRA) of natively built shape trees against closed-form geometry",
+        engine="E-TV",
+    ),
     "C10": dict(
         category="translation_validation",
         text="Reuse of the simplification workspace and of recycled function storage: tvdump runs the real simplify_with with a "
@@ -164,7 +178,6 @@ NOT_APPLICABLE = {
     "C19": "Constraint solver: HashMap<Var,_> API, dynamic nalgebra matrices and an SVD-based LM loop; hash-map and nalgebra code alone cost minutes per call under CBMC and the claims are numeric.",
     # not yet built (kept current as checks are added)
     "C14": "not built: ShapeTracingEval/ShapeBulkEval go through nalgebra transforms and HashMap-keyed variable binding, which CBMC does not get through within minutes per call (same cost wall as the C18 matrix harnesses)",
-    "C16": "not built: every shape builder would need its own closed-form distance specification over the reals next to the C13 remap validation; not reached in the time available",
 }
 
 HOOK_COMMITS = ["6f64d81", "a9b3eaa"]
@@ -199,7 +212,7 @@ def main():
         "engines": [
             {"name": "E-X", "path": "/verif/lib/x86smt.py", "serves_properties": ["C02", "C03", "C20"],
              "kind_free_text": "tvdump assembles tapes with the real fidget-jit assemblers; lib/lifter.py + lib/x86smt.py + lib/jitsmt.py execute the machine code symbolically into SMT for z3"},
-            {"name": "E-TV", "path": "/verif/tv", "serves_properties": ["C01", "C04", "C10", "C12", "C13", "C15"],
+            {"name": "E-TV", "path": "/verif/tv", "serves_properties": ["C01", "C04", "C10", "C12", "C13", "C15", "C16"],
              "kind_free_text": "tvdump (Rust, path dependency on /repo) runs the real compiler passes natively on enumerated programs; lib/tv_engine.py encodes each input/output pair for z3"},
             {"name": "E-K", "path": "/verif/kani", "serves_properties": ["C01", "C03", "C04", "C05", "C11", "C18", "C20"],
              "kind_free_text": "Kani 0.68 / CBMC 6.11 proof harnesses over the real fidget crates (path dependency on /repo), driven by /verif/check"},
